@@ -15,6 +15,13 @@ Definition dec_cop (v : val) : option cop :=
   | VL [VN 4] => Some ODropWriter
   | VL [VN 5; VN w] => Some (OPoll w)
   | VL [VN 6] => Some ODropReader
+  (* write_vectored(slices): BodyWriter does not override it, so it is std's default -- one write of the
+     first non-empty slice (of the empty slice when there is none) *)
+  | VL [VN 8; VL ds] =>
+      match vall vbytes ds with
+      | Some l => Some (OWrite (match filter (fun d => negb (lenN d =? 0)) l with d :: _ => d | [] => [] end))
+      | None => None
+      end
   | _ => None
   end.
 (* The builder calls of a case: an optional list of earlier setter calls ([0; n] = with_chunk_size(n),
